@@ -7,7 +7,7 @@ VERIF = os.path.dirname(os.path.dirname(os.path.abspath(__file__)))
 ENGINES = [
     dict(name="periph", path="engines/periph", serves_properties=["C13", "C15", "C16"],
          kind_free_text="explicit-state BFS / exhaustive configuration enumeration over the real Timer, Btdmp, Dma+Ahbm objects with lock-step reference models"),
-    dict(name="sys", path="engines/sys", serves_properties=["C06", "C07", "C12", "C14"],
+    dict(name="sys", path="engines/sys", serves_properties=["C06", "C07", "C12", "C14", "C17"],
          kind_free_text="explicit-state BFS over the whole Teakra facade (host API + DSP-side MMIO) with snapshot/restore of the plain state and lock-step reference models"),
 ]
 
@@ -41,6 +41,10 @@ CLAIMED = {
             "For each period and value labelling the complete reachable state set (clock phase x enable x flags x queue fill 0..16) is enumerated; every event in every state is executed on the real object and compared with the reference FIFO (frames, order, flags, interrupt count, queue content), and Skip(k) for every k up to the reported horizon is compared with k real Ticks.",
             "Trusted: the reference FIFO model, g++. Period fixed before the first cycle; period 0 and period changes are outside the statement. Queue values are consecutive sequence numbers relabelled per state (the device never inspects values).",
             "DESIGN.md section 4, C16"),
+    "C17": ("sys", "exhaustive enumeration of API call histories up to a depth bound on real instances built over controlled heap fill patterns, observation equality between instances and between h1;Reset;h2 and fresh;Reset;h2",
+            "All histories of length <= 2 over a 34-call API alphabet are executed on three instances whose heap is pre-filled with different patterns (with and without an initial Reset), and every pair (h1 of length <= 2, h2 of length <= 1) is executed as h1;Reset;h2 and compared with fresh;Reset;h2; the observation covers every modelled component (registers incl. hidden banks, latches, MIU, ICU incl. vectors, APBP, timers, audio port, DMA, AHBM incl. burst queues, the whole memory, host getters, callback log). Uninitialised members and incomplete resets are history-dependent bugs that need exactly this kind of exhaustive pairing to show.",
+            "Trusted: operator-new replacement as the allocation seam (malloc'd memory is not filled), g++, -fno-access-control observation of private state. Raw backing words of unimplemented MMIO fields and DMA transfer-internal counters are not observed.",
+            "DESIGN.md section 4, C17"),
 }
 
 PENDING_REASON = "check not built yet in this session (engine under construction); see DESIGN.md section 4 for the planned exhaustive exploration"
